@@ -268,6 +268,15 @@ func r011(c *an.Ctx) {
 			c.Check(existsOK && checkOK && valueOK && nCheck > 0 && nVal > 0, rule, cons, ef.Pos(), "guarded by exists, expectedCheck == nil and the expected-value comparison",
 				fmt.Sprintf("the effect is reachable although a precondition failed (exists guard %v, expectedCheck respected %v [%d evaluation(s)], expectedValue respected %v [%d]): a failing Delete removes the item or emits REMOVE", existsOK, checkOK, nCheck, valueOK, nVal))
 		}
+		// every configured precondition is evaluated: no path to the effect bypasses a precondition
+		// except through the edge on which that precondition is not configured (nil)
+		for i, ef := range effects {
+			for _, pre := range []string{"expectedCheck", "expectedValue"} {
+				by := bypassPath(fn, ef, pre)
+				c.Check(by == nil, rule, fmt.Sprintf("%s|effect#%d cannot bypass %s", name, i+1, pre), ef.Pos(), "every path evaluates "+pre+" or sees it unset",
+					"a path reaches the effect without evaluating a configured "+pre+" (e.g. when another precondition is also set): the call succeeds although its precondition fails", an.BlockPath(c.Prog, by)...)
+			}
+		}
 		// no error after delete
 		for _, ef := range effects {
 			for _, r := range an.Returns(fn) {
@@ -337,6 +346,12 @@ func r012(c *an.Ctx) {
 		}
 	}
 	c.Ok(rule, name+"|never-after order of the five stages", cl.Pos(), "checked all pairs")
+	for _, m := range stage["4 merge"] {
+		for _, pre := range []string{"expectedCheck", "expectedValue", "interceptBefore"} {
+			by := bypassPath(cl, m, pre)
+			c.Check(by == nil, rule, name+"|Merge cannot bypass "+pre, m.Pos(), "", "a path reaches Merge without running a configured "+pre, an.BlockPath(c.Prog, by)...)
+		}
+	}
 	// arguments
 	for _, in := range stage["3 interceptBefore"] {
 		a := in.(*ssa.Call).Call.Args
@@ -979,4 +994,52 @@ func guardByField(at ssa.Instruction, field string) bool {
 		}
 	}
 	return false
+}
+
+// bypassPath searches a path from the entry of fn to `effect` that neither
+// evaluates the precondition stored in WriteRequest field `field` nor takes
+// an edge on which that field is known to be nil. nil = no such path.
+func bypassPath(fn *ssa.Function, effect ssa.Instruction, field string) []*ssa.BasicBlock {
+	isEval := func(in ssa.Instruction) bool {
+		call, ok := in.(*ssa.Call)
+		if !ok {
+			return false
+		}
+		if an.CalleeName(call) == "dynamic" {
+			if _, _, f, ok := an.FieldOf(call.Call.Value); ok && f == field {
+				return true
+			}
+		}
+		if field == "expectedValue" && an.CalleeName(call) == "google.golang.org/protobuf/proto.Equal" {
+			for _, a := range call.Call.Args {
+				if _, _, f, ok := an.FieldOf(a); ok && f == field {
+					return true
+				}
+			}
+		}
+		return false
+	}
+	nilEdge := func(from, to *ssa.BasicBlock) bool {
+		iff, ok := from.Instrs[len(from.Instrs)-1].(*ssa.If)
+		if !ok || from.Succs[0] == from.Succs[1] {
+			return false
+		}
+		x, trueMeansNil, isNil := an.NilTest(iff.Cond)
+		if !isNil {
+			return false
+		}
+		if _, _, f, ok := an.FieldOf(x); !ok || f != field {
+			return false
+		}
+		nilSucc := from.Succs[1]
+		if trueMeansNil {
+			nilSucc = from.Succs[0]
+		}
+		return to == nilSucc
+	}
+	t, path := an.PathQuery{Target: func(in ssa.Instruction) bool { return in == effect }, Avoid: isEval, AvoidEdge: nilEdge}.From(fn, nil)
+	if t == nil {
+		return nil
+	}
+	return path
 }
